@@ -566,3 +566,17 @@ Proof.
     + vm_compute in E. injection E as <-. split; reflexivity.
   - vm_compute in E. discriminate.
 Qed.
+
+(* H_aggperm is satisfiable by an oracle that really looks at its arguments *)
+Definition ex_aggreport (a : amap) (d : dmap) : list viol :=
+  if is_nil a then [] else [{| v_file := []; v_key := [33%N] |}].
+
+Example aggperm_satisfiable :
+  (forall a1 a2 d1 d2, aggs_equiv a1 a2 -> dirs_equiv d1 d2 ->
+                       Permutation (ex_aggreport a1 d1) (ex_aggreport a2 d2)) /\
+  ex_aggreport [] [] <> ex_aggreport [([107%N], [])] [].
+Proof.
+  split.
+  - intros a1 a2 d1 d2 Ha _. unfold ex_aggreport. rewrite (aggs_equiv_nil _ _ Ha). apply Permutation_refl.
+  - discriminate.
+Qed.
